@@ -38,28 +38,28 @@ def tool(name):
 # ------------------------------------------------------------------ TLC side
 
 # select() calls of the histories: (query, tags); ([], []) is select() without arguments
-HIST_SELECTS = [([], []), (["grp", "*"], []), ([], ["t1"]), (["grp", "b"], []), (["grp", "*"], ["t2"])]
+HIST_SELECTS = [([], []), (["grp", "*"], []), ([], ["t1"]), (["box", "*"], []), (["grid", "*"], []), (["grid", "n"], [])]
 
 
 def bounds(tier):
     if tier == "thorough":
         return dict(
             types=dict(Shapes=[[], [2], [3], [2, 3], [3, 2], [2, 2], [2, 2, 2], [2, 1, 3], [3, 2, 2]], SecShapes=[[], [2], [2, 3]],
-                       ModShapes=[[], [2], [3], [2, 3], [2, 2, 2]],
+                       ModShapes=[[], [2], [3], [2, 3], [2, 2, 2]], LongShapes=[[48], [80]],
                        ArrStarts=[1, 3, 5, 7, 9, 11, 13, 15, 16], Steps=[0, 1]),
             select=dict(EnvSizes=[1, 2, 3, 7],
                         QuerySet=[[], ["*"], ["grp", "*"], ["grp", "b"], ["grp", "sub", "*"], ["grp", "sub", "d"],
                                   ["zz", "*"], ["a"], ["grp"], ["Size2", "*"]],
                         TagSelSet=[[], ["t1"], ["t2"], ["t3"], ["t1", "t2"], ["t1", "t3"]]),
-            history=dict(MaxCalls=4, HistSelects=HIST_SELECTS), chain=dict(MaxChain=3))
+            history=dict(MaxCalls=4, AltCalls=4, HistSelects=HIST_SELECTS), chain=dict(MaxChain=3))
     return dict(
         types=dict(Shapes=[[], [2], [3], [2, 3], [3, 2], [2, 2], [2, 2, 2], [2, 1, 3]], SecShapes=[[], [2, 3]],
-                   ModShapes=[[], [2], [2, 3]],
+                   ModShapes=[[], [2], [2, 3]], LongShapes=[[48]],
                    ArrStarts=[1, 4], Steps=[1]),
         select=dict(EnvSizes=[2, 7],
                     QuerySet=[[], ["grp", "*"], ["grp", "b"], ["grp", "sub", "*"], ["zz", "*"]],
                     TagSelSet=[[], ["t1"], ["t2"], ["t1", "t2"]]),
-        history=dict(MaxCalls=3, HistSelects=HIST_SELECTS), chain=dict(MaxChain=2))
+        history=dict(MaxCalls=3, AltCalls=4, HistSelects=HIST_SELECTS), chain=dict(MaxChain=2))
 
 
 def tla_set(xs, inner):
@@ -71,7 +71,7 @@ def tla_seq(xs):
 
 
 def run_family(wd, family, b, backends, workers):
-    d = dict(Shapes=[[]], SecShapes=[[]], ModShapes=[[]], ArrStarts=[1], Steps=[1], EnvSizes=[1], QuerySet=[[]], TagSelSet=[[]],
+    d = dict(Shapes=[[]], SecShapes=[[]], ModShapes=[[]], LongShapes=[], AltCalls=1, ArrStarts=[1], Steps=[1], EnvSizes=[1], QuerySet=[[]], TagSelSet=[[]],
              MaxCalls=1, HistSelects=[([], [])], MaxChain=1)
     d.update(b[family])
     mod = "ExportMC_" + family
@@ -79,6 +79,7 @@ def run_family(wd, family, b, backends, workers):
           "MCShapes == " + tla_set(d["Shapes"], tla_seq),
           "MCSecShapes == " + tla_set(d["SecShapes"], tla_seq),
           "MCModShapes == " + tla_set(d["ModShapes"], tla_seq),
+          "MCLongShapes == " + tla_set(d["LongShapes"], tla_seq),
           "MCArrStarts == " + tla_set(d["ArrStarts"], str),
           "MCSteps == " + tla_set(d["Steps"], str),
           "MCEnvSizes == " + tla_set(d["EnvSizes"], str),
@@ -96,6 +97,8 @@ def run_family(wd, family, b, backends, workers):
   Shapes <- MCShapes
   SecShapes <- MCSecShapes
   ModShapes <- MCModShapes
+  LongShapes <- MCLongShapes
+  AltCalls = {d["AltCalls"]}
   ArrStarts <- MCArrStarts
   Steps <- MCSteps
   EnvSizes <- MCEnvSizes
